@@ -37,7 +37,7 @@ def tie_inputs(rng) -> list[bytes]:
 def custom_dir(root: str) -> str:
     os.makedirs(os.path.join(root, "sub", "deep"))
     os.makedirs(os.path.join(root, "other"))
-    files = {"a.words": b"strlen\nStrLen\nSTRLEN\nGetProcAddress\n", "sub/b.words": b"strlen\ngetprocaddress\n",
+    files = {"a.words": b"#tag\nstrlen\nStrLen\nSTRLEN\nGetProcAddress\n; note\n", "sub/b.words": b"strlen\ngetprocaddress\n",
              "sub/deep/a.words": b"StrLen\nevil\n", "other/c.words": b"evil\nEvil\nstrlen\n", "z.words": b"evil\n"}
     for rel, raw in files.items():
         with open(os.path.join(root, rel), "wb") as f:
@@ -73,11 +73,15 @@ def run(prop: str, tier: str) -> int:
     work = scratch("repro")
     cdir = custom_dir(os.path.join(work, "custom"))
     inputs = tie_inputs(rng) + [b"strlen StrLen STRLEN evil Evil GetProcAddress getprocaddress"]
+    # same-span hits from different decoder modules (their order in the registry decides which one nests in which)
+    inputs += [b"x = cmd.exe", b"run powershell.exe", b"get http://a.example.com/x.exe", b"\\\\host.example.com\\share\\cmd.exe", b"start C:\\Windows\\System32\\cmd.exe",
+               b"strlen #tag ; note GetProcAddress"]
     inputs += list(drivers.token_soup(rng, 25 if tier == "quick" else 300))
     inputs += drivers.repo_literals()[:: 6 if tier == "quick" else 1]
     hx = [x.hex() for x in inputs]
     seeds = ["0", "1", "2", "3", "17", "4242"] if tier == "quick" else [str(s) for s in range(24)] + ["random", "random"]
-    cfgs = {"default": "", "custom": cdir}
+    cfgs = {"default": "", "custom": cdir, "inc-4": {"include": ["shell", "filename", "network", "path"]},
+            "inc-3-custom": {"dir": cdir, "include": ["filename", "shell", "vba"]}}
     jobs = []
     for i, s in enumerate(seeds):
         jobs.append(({"src": SRC, "proc": f"seed{s}-{i}", "walk": (i * 7 + 1) if i % 2 else -1, "cfgs": cfgs, "inputs": hx,
